@@ -37,7 +37,13 @@ Record fp_tables := {
   t_mantbits : Z; t_expbits : Z; t_bias : Z
 }.
 
-Definition u64 (x : Z) : Z := x mod two64.
+(** uint64 truncation [x mod 2^64], Go's [x >> k] and [x & (1<<k - 1)] on non-negative values.
+    Written with the bit operations of Z (structural, fast after extraction); the arithmetic
+    readings are [u64_mod], [shr_div], [lowbits_mod] in FpFacts.v. *)
+Definition mask64 : Z := Z.ones 64.
+Definition u64 (x : Z) : Z := Z.land x mask64.
+Definition shr (x k : Z) : Z := Z.shiftr x k.
+Definition lowbits (x k : Z) : Z := Z.land x (Z.ones k).
 
 Inductive fperr := FpSyntax | FpRange.      (* errSyntax, errRange *)
 
@@ -286,14 +292,14 @@ Definition set_m (data : list byte) : option decimal :=
 (** first loop: pick up leading digits until n>>k != 0.  Result: unread digits, r, n; or the
     early return "a.nd = 0" ([inl]). *)
 Fixpoint rs_pad (fuel : nat) (k r n : Z) : option (Z * Z) :=
-  if negb (n / 2 ^ k =? 0) then Some (r, n) else
+  if negb (shr n k =? 0) then Some (r, n) else
   match fuel with
   | O => None
   | S f => rs_pad f k (r + 1) (u64 (n * 10))
   end.
 
 Fixpoint rs_pick (l : list Z) (k r n : Z) : option (unit + list Z * Z * Z) :=
-  if negb (n / 2 ^ k =? 0) then Some (inr (l, r, n)) else
+  if negb (shr n k =? 0) then Some (inr (l, r, n)) else
   match l with
   | [] => if n =? 0 then Some (inl tt)
           else obind (rs_pad 64 k r n) (fun '(r, n) => Some (inr ([], r, n)))
@@ -305,8 +311,8 @@ Fixpoint rs_main (l : list Z) (k n : Z) (out : list Z) : Z * list Z :=
   match l with
   | [] => (n, out)
   | c :: l' =>
-    let dig := n / 2 ^ k in
-    let n := n mod 2 ^ k in
+    let dig := shr n k in
+    let n := lowbits n k in
     rs_main l' k (u64 (u64 (n * 10) + c)) (dig :: out)
   end.
 
@@ -316,8 +322,8 @@ Fixpoint rs_extra (fuel : nat) (k n w : Z) (out : list Z) (trunc : bool) : optio
   match fuel with
   | O => None
   | S f =>
-    let dig := n / 2 ^ k in
-    let n := n mod 2 ^ k in
+    let dig := shr n k in
+    let n := lowbits n k in
     if w <? dec_cap then rs_extra f k (u64 (n * 10)) (w + 1) (dig :: out) trunc
     else rs_extra f k (u64 (n * 10)) w out (trunc || (0 <? dig))
   end.
@@ -358,7 +364,7 @@ Fixpoint ls_main (rd : list Z) (k n w : Z) (out : list Z) (trunc : bool) : Z * Z
   match rd with
   | [] => (n, w, out, trunc)
   | c :: rd' =>
-    let n := u64 (n + u64 (c * 2 ^ k)) in
+    let n := u64 (n + u64 (Z.shiftl c k)) in
     let quo := n / 10 in
     let rem := u64 (n - 10 * quo) in
     let w := w - 1 in
